@@ -50,6 +50,12 @@ Definition vlayout (l : layout) : val := VRec [("size", VN (l_size l)); ("align"
 Definition given_or_default (given : option N) : N := match given with Some g => g | None => actual_default end.
 Definition dres_out (r : dres) : outcome :=
   match r with DSome d => Ret (VSome (vdetails d)) | DNone => Ret VNone | DPanic => Panic end.
+Definition self_full (start ptr lsize ab : N) (lim : option N) : env :=
+  [("self", VRec [("current_chunk_footer",
+                   VRec [("ptr", VN ptr); ("data", VN start); ("layout", VRec [("size", VN lsize)]);
+                         ("allocated_bytes", VN ab)]);
+                  ("allocation_limit", vopt lim); ("allocated_bytes", VN ab)])].
+
 Definition self_chunk (start ptr : N) : env :=
   [("self", VRec [("current_chunk_footer", VRec [("ptr", VN ptr); ("data", VN start)])])].
 
@@ -58,7 +64,7 @@ Definition self_chunk (start ptr : N) : env :=
 Ltac rsimpl :=
   cbv beta iota zeta delta
     [call_fn eval lookup bind finish meth0 meth1 arith fn_params fn_body src_fns cenv vlayout vdetails
-     self_chunk self_of String.eqb Ascii.eqb Bool.eqb List.app List.combine List.length
+     self_chunk self_of self_full String.eqb Ascii.eqb Bool.eqb List.app List.combine List.length
      Datatypes.app Datatypes.length List.rev Nat.eqb FUEL_SEM fst snd].
 
 (* ---------- the constants: source definitions = what the built crate reports ---------- *)
@@ -448,4 +454,61 @@ Proof.
       destruct (layout_ok (rdown (l_size new + (m - 1)) m - l_size old) (l_align old)); rsimpl; reflexivity.
   - unfold call_fn. rsimpl. reflexivity.
   - unfold call_fn. rsimpl. reflexivity.
+Qed.
+
+(* ---------- getters, reset's accounting, and the candidate computation of alloc_layout_slow ---------- *)
+(* self as these functions see it: the current footer with its finger, data pointer, layout and
+   running total; the limit *)
+Lemma src_frames_ok : forallb snd src_frames = true.
+Proof. vm_compute. reflexivity. Qed.
+
+Lemma src_getters_ok m start ptr lsize ab lim : start <= ptr -> actual_footer <= lsize ->
+  let en := List.app (self_full start ptr lsize ab lim) (cenv m) in
+  call_fn src_fns en "chunk_capacity" [] = Ret (VN (ptr - start)) /\
+  call_fn src_fns en "allocated_bytes" [] = Ret (VN ab) /\
+  call_fn src_fns en "reset_allocated_bytes" [] = Ret (VN (lsize - actual_footer)).
+Proof.
+  intros H1 H2 en. unfold en. repeat match goal with |- _ /\ _ => split end.
+  - unfold call_fn. rsimpl. replace (start <=? ptr) with true by (symmetry; apply N.leb_le; exact H1). rsimpl. reflexivity.
+  - unfold call_fn. rsimpl. reflexivity.
+  - unfold call_fn. rsimpl. replace (actual_footer <=? lsize) with true by (symmetry; apply N.leb_le; exact H2). rsimpl. reflexivity.
+Qed.
+
+(* alloc_layout_slow: min_new_chunk_size, the first candidate, the small-limit bypass and the test
+   that lets a candidate be tried — the values ArenaPolicy.slow_policy / cand_loop / bypass start from *)
+Lemma src_slow_path_ok m e0 (b : bump) l start ptr :
+  actual_footer <= cur_layout_size (actual m e0) b ->
+  let k := actual m e0 in
+  let en := List.app (self_full start ptr (cur_layout_size k b) (ab_of b) (limit b)) (cenv m) in
+  let min_new := N.max (l_size l) actual_default in
+  call_fn src_fns en "slow_min_new_chunk_size" [vlayout l] = Ret (VN min_new) /\
+  call_fn src_fns en "slow_first_candidate" [vlayout l]
+    = Ret (vtry (match checked_mul (cur_layout_size k b - actual_footer) 2 with
+                 | Some dbl => Some (N.max dbl min_new) | None => None end)) /\
+  (forall dbl, checked_mul (cur_layout_size k b - actual_footer) 2 = Some dbl ->
+     call_fn src_fns en "slow_bypass" [vlayout l] = Ret (VB (bypass b l k (N.max dbl min_new))) /\
+     call_fn src_fns en "slow_try_candidate_cond" [vlayout l]
+       = Ret (VB ((min_new <=? N.max dbl min_new) || bypass b l k (N.max dbl min_new)))).
+Proof.
+  intros Hf k en min_new. unfold en, k.
+  assert (T0 : (actual_footer <=? cur_layout_size (actual m e0) b) = true) by (apply N.leb_le; exact Hf).
+  repeat match goal with |- _ /\ _ => split end.
+  - unfold call_fn. rsimpl. reflexivity.
+  - unfold call_fn. rsimpl. rewrite T0. rsimpl. unfold checked_mul.
+    destruct ((cur_layout_size (actual m e0) b - actual_footer) * 2 <? W); rsimpl; reflexivity.
+  - intros dbl Hd. unfold checked_mul in Hd.
+    destruct ((cur_layout_size (actual m e0) b - actual_footer) * 2 <? W) eqn:EW; [|discriminate]. inversion Hd; subst dbl; clear Hd.
+    unfold bypass. cbn [k_default actual]. unfold min_new.
+    set (c1 := N.max ((cur_layout_size (actual m e0) b - actual_footer) * 2) (N.max (l_size l) actual_default)).
+    destruct (limit b) as [L|]; (split; unfold call_fn; rsimpl; rewrite T0; rsimpl; rewrite EW; rsimpl; cbn [vopt]; rsimpl; fold c1).
+    + destruct (l_size l <? L); rsimpl; cbn [andb]; [|reflexivity].
+      destruct (l_size l <=? c1); rsimpl; cbn [andb]; [|reflexivity].
+      destruct (L <? actual_default); rsimpl; cbn [andb]; reflexivity.
+    + destruct (l_size l <? L); rsimpl; cbn [andb];
+        [destruct (l_size l <=? c1); rsimpl; cbn [andb];
+          [destruct (L <? actual_default); rsimpl; cbn [andb]|]|];
+        destruct (N.max (l_size l) actual_default <=? c1); rsimpl; cbn [orb]; try reflexivity;
+        destruct (ab_of b =? 0); reflexivity.
+    + reflexivity.
+    + destruct (N.max (l_size l) actual_default <=? c1); rsimpl; reflexivity.
 Qed.
